@@ -17,6 +17,7 @@ ASSUME = ["tskit's metadata codec (decode_row / validate_and_encode_row) is exte
           "on that table", "log records of logger tsdate.core identify the warning / clearing / schema-setting events"]
 
 FINDING_SIG = "c32:codec-exception-escapes"
+CODEC_EXC = ("JSONDecodeError", "UnicodeDecodeError", "AttributeError", "error", "OverflowError")
 
 
 def default_schema_of(table):
@@ -30,7 +31,7 @@ def direct_cases(ctx, reps):
     rng = ctx.rng
     for rep in range(reps):
         for kind in G.KINDS:
-            ts = G.base_ts(rng, multi=rng.random() < 0.3, min_muts=2, n=rng.randint(2, 4))
+            ts = G.pooled_ts(rng, size=ctx.n(8, 30), multi=rng.random() < 0.3, min_muts=2)
             for which in ("nodes", "mutations"):
                 tables = ts.dump_tables()
                 table = getattr(tables, which)
@@ -45,7 +46,7 @@ def direct_cases(ctx, reps):
                                         mean=mean, var=var if has_var else None))
     # wrong lengths: the assertion
     for _ in range(4):
-        ts = G.base_ts(rng, min_muts=2)
+        ts = G.pooled_ts(rng, size=ctx.n(8, 30), multi=False, min_muts=2)
         table = ts.dump_tables().nodes
         n = table.num_rows
         k = rng.choice([n - 1, n + 1])
@@ -93,7 +94,7 @@ def oracle_direct(ctx, c, t1, exc, events):
 
 
 def run_direct(ctx, model_ok, reps=None):
-    cases = direct_cases(ctx, reps or ctx.n(1, 6))
+    cases = direct_cases(ctx, reps or ctx.n(2, 12))
     methods = {}
     impl = []
     terms = []
@@ -108,20 +109,15 @@ def run_direct(ctx, model_ok, reps=None):
         t1, exc, events = G.call_set_time_metadata(m, table, c["mean"], c["var"], default)
         res = mc.impl_result(t1, exc, events)
         impl.append(res)
-        terms.append(mc.coq_term())
+        terms.append(mc)
         write_requested = c["sm"] is not False and c["var"] is not None
         label = "raised" if res[0] == 1 else {(): "no-log", (0,): "warn", (2,): "set-schema",
                                                  (1, 2): "clear+set-schema"}.get(tuple(res[3]), str(res[3]))
         ctx.case(describe(c), nontrivial=write_requested, kind="direct/%s/sm=%s" % (label, c["sm"]))
         oracle_direct(ctx, c, t1, exc, events)
     if model_ok:
-        model = []
-        CH = 150
-        for i in range(0, len(terms), CH):
-            body = "From Coq Require Import String.\nDefinition cases := %s.\nEval vm_compute in cases.\n" % G.clist(terms[i:i + CH])
-            model += ctx.coq_eval(body, requires=("model.Glue",), tag="setmeta")[0]
+        model = G.eval_meta_cases(ctx, terms)
         for c, a, b in zip(cases, impl, model):
-            b = G.canon_model(b)
             a = (a[0], a[1], [list(r) for r in a[2]], list(a[3]))
             ctx.corr("set_time_metadata", a == b, "impl=%r model=%r" % (a, b),
                      replay={"case": replay_payload(c), "impl": a, "model": b})
@@ -162,11 +158,11 @@ def check_output(ctx, label, its, ots, node_mv, mut_mv, sm, events, payload):
 def run_modified(ctx):
     """get_modified_ts with fabricated Results, all three method classes"""
     rng = ctx.rng
-    for _ in range(ctx.n(40, 300)):
+    for _ in range(ctx.n(300, 2500)):
         cls = rng.choice(["variational_gamma", "inside_outside", "maximization"])
         sm = rng.choice([None, True, False])
         kn, km = rng.choice(G.KINDS), rng.choice(G.KINDS)
-        ts = G.base_ts(rng, min_muts=1, n=rng.randint(2, 4))
+        ts = G.pooled_ts(rng, size=ctx.n(8, 30), multi=False, min_muts=2)
         tables = ts.dump_tables()
         G.decorate(tables.nodes, kn, rng)
         G.decorate(tables.mutations, km, rng)
@@ -185,7 +181,7 @@ def run_modified(ctx):
                 exc = e
         if exc is not None:
             crash = (kn in G.CRASH_KINDS) or (km in G.CRASH_KINDS and cls == "variational_gamma")
-            if crash and sm is not False and cls != "maximization":
+            if crash and sm is not False and cls != "maximization" and type(exc).__name__ in CODEC_EXC:
                 ctx.oracle_fail("%s:%s" % (FINDING_SIG, type(exc).__name__), repr(exc), payload)
             else:
                 ctx.oracle_fail("c32:unexpected-exception:%s" % type(exc).__name__, repr(exc), payload)
@@ -212,11 +208,11 @@ def run_date(ctx):
     """full date() runs: methods x set_metadata x kinds"""
     import tsdate
     rng = ctx.rng
-    for _ in range(ctx.n(24, 240)):
+    for _ in range(ctx.n(250, 2500)):
         method = rng.choice(["variational_gamma", "variational_gamma", "inside_outside", "maximization"])
         sm = rng.choice([None, True, False, None])
         kn, km = rng.choice(G.KINDS), rng.choice(G.KINDS)
-        ts = G.base_ts(rng, min_muts=2, n=rng.randint(2, 4), L=rng.choice([5, 20]))
+        ts = G.pooled_ts(rng, size=ctx.n(8, 30), multi=False, min_muts=2)
         tables = ts.dump_tables()
         G.decorate(tables.nodes, kn, rng)
         G.decorate(tables.mutations, km, rng)
@@ -238,7 +234,7 @@ def run_date(ctx):
                 exc = e
         if exc is not None:
             crash = (kn in G.CRASH_KINDS) or (km in G.CRASH_KINDS and method == "variational_gamma")
-            if crash and sm is not False and method != "maximization":
+            if crash and sm is not False and method != "maximization" and type(exc).__name__ in CODEC_EXC:
                 ctx.oracle_fail("%s:%s" % (FINDING_SIG, type(exc).__name__), repr(exc), payload)
             elif type(exc).__name__ in ("AssertionError", "LibraryError", "FloatingPointError", "ZeroDivisionError"):
                 ctx.tally("date-raised-elsewhere(C35)")   # not the metadata policy's business
